@@ -30,8 +30,12 @@ def run(chk: Check):
            what="all tables K=2, C=1, T=3 over {0,1,2}, all phase splits")
     jobs = R.jobs(rng, chk.quick)
     traces = parallel.run_jobs("harness.results_driver", "one_run", jobs)
+    # built-in kernels reporting errors of their own
+    traces += [R.builtin_codes_run(chk.seed + s) for s in range(2 if chk.quick else 12)]
 
     def nontrivial(t):
+        if t["hdr"].get("kind") == "builtin_codes":
+            return any(k["seen"] for k in t["ev"][0]["kernels"])
         ph = [c["type"] == 4 for c in t["hdr"]["sched"] for _ in range(c["dur"])]
         tb = t["hdr"]["tbl"]
         w = any(tb[k][c][j] for k in range(len(tb)) for c in range(len(tb[0])) for j in range(len(ph)) if not ph[j])
@@ -40,10 +44,14 @@ def run(chk: Check):
 
     chk.tv("Trace_Results.tla", traces, tag="results", nontrivial=nontrivial,
            keyfn=lambda r: f"results:{r.conjunct}",
-           describe=lambda r: f"schedule {r.trace['hdr']['sched']} crash={r.trace['ev'][0]['crash'][:200]}")
+           describe=lambda r: f"schedule {r.trace['hdr']['sched']} crash={r.trace['ev'][0]['crash'][:200]}"
+           if r.trace["hdr"].get("kind") != "builtin_codes" else str(r.trace["ev"][0])[:500])
 
 
 def replay(chk: Check, data):
     h = data["replay"]["trace"]["hdr"]
+    if h.get("kind") == "builtin_codes":
+        chk.tv("Trace_Results.tla", [R.builtin_codes_run(h["seed"])], tag="results", keyfn=lambda r: f"results:{r.conjunct}")
+        return
     t = R.one_run(h["tbl"], [(c["type"], c["dur"], c["thin"]) for c in h["sched"]], J=h.get("J", 1))
     chk.tv("Trace_Results.tla", [t], tag="results", keyfn=lambda r: f"results:{r.conjunct}")
